@@ -45,6 +45,30 @@ fn run_case(case: &Case, viols: &mut Sink) -> Cnt {
         Case::Silhouette { .. } | Case::SilhouetteF { .. } => clust::run_silhouette(case, viols),
         Case::Layouts { base } => run_layouts(case, base, viols),
         Case::Scaled { base, factors } => run_scaled(case, base, factors, viols),
+        Case::Shifted { base, offset, step } => match &**base {
+            Case::Regr { float, pred, truth, .. } => {
+                if float == "f32" {
+                    regr::run_regr_shifted::<f32>(case, float, pred, truth, *offset, *step, viols)
+                } else {
+                    regr::run_regr_shifted::<f64>(case, float, pred, truth, *offset, *step, viols)
+                }
+            }
+            Case::SilhouetteF { float, points, labels, .. } => {
+                if float == "f32" {
+                    clust::run_sil_shifted::<f32>(case, float, points, labels, *offset, *step, viols)
+                } else {
+                    clust::run_sil_shifted::<f64>(case, float, points, labels, *offset, *step, viols)
+                }
+            }
+            Case::Pearson { float, cols, .. } => {
+                if float == "f32" {
+                    clust::run_pearson_shifted::<f32>(case, float, cols, *offset, *step, viols)
+                } else {
+                    clust::run_pearson_shifted::<f64>(case, float, cols, *offset, *step, viols)
+                }
+            }
+            _ => panic!("this kind of case cannot be shifted"),
+        },
         Case::Containers { base } => match &**base {
             Case::Labels { ty, alphabet, pred, truth, .. } => match ty.as_str() {
                 "bool" => {
@@ -350,6 +374,7 @@ fn main() {
          (N) large inputs: bases of length 3,4,5,7,17,25 repeated cyclically to n = 1025 and n = 4097 rows for every metric family (silhouette at 4097: thorough only) incl. 17- and 33-column multi-target / Pearson matrices, through the same references (for n a multiple of the base length the reference must also equal the base's: closed form), also under the layouts; (F) silhouette in f32; \
          (S) scale: subsets of the regression / Pearson / silhouette / score catalogues with every value multiplied by 1e-12, 1e-8, 1e-5, 1e-2, 1e3, 1e8 (f64) or 1e-5, 1e-2, 1e3 (f32), Pearson and 3-column multi-target regression also with a different factor per column (1e-8 | 1 | 1e8 ...), scores by 0.5, 1e-3, 1e-6, 1e-12; scale-invariant scores (Pearson r, R2, explained variance, MAPE, silhouette, AUC) and scale-equivariant ones (max / mean / median absolute error, MSE) against the definition on the scaled values at the relative tolerance, without any absolute slack; silhouette additionally with every 4-labelling of 8 points (thorough: every 5-labelling of 10 points); \
          (C) target containers: subsets of the label / silhouette / score catalogues with prediction and truth as array views, owned datasets, dataset views, CountedTargets built directly, `with_labels` results (requested labels = exactly the present ones / a superset with absent labels / a subset that drops samples / a subset plus an absent label), `one_vs_all` datasets, `map_targets` results (renamed to String, mapped to bool), `into_single_target` of standard and strided n x 1 target matrices - each against the definition on the raw (filtered / mapped) label vectors; one-sample regression vectors; silhouette with 1, 4, 5, 6, 7, 9 features at coordinate scale 0.125; \
+         (T) translation: subsets of the regression / Pearson / silhouette catalogues with every value v replaced by offset + step * v (offsets 1e3, 1e6, 1e9 in f64, 1e2, 1e4 in f32; steps 0.137 and 1; silhouette coordinates alternately at offset and 10.8 * offset, Pearson columns alternately at offset and offset / 1000): max / mean / median absolute error, MSE, R2, explained variance, Pearson r and silhouette must equal the definition evaluated on the centred values (the subtraction of the offset is exact in f64 for the values as the subject sees them); \
          (e) Pearson: every matrix with 2..4 rows and 2..3 columns (quick) / up to 5 rows or 4 columns (thorough) over {-1,0,2} (and {-1,0,.5,2}), plus every 4x4 and 3x5 (thorough: 4x5) matrix over {-1,2} so that the order of the packed coefficients is observable. \
          Every case is additionally re-run under permutations applied to both sides: all n!-1 for small n (usize/String labels n<=4, bool n<=4/5, scores n<=4/5, regression n<=3/4, silhouette n<=4/5, Pearson rows<=4), the generating set {swap(0,1), rotation, reversal} beyond (the sweep visits every input, so invariance under generators at every input implies invariance under every permutation); quick runs the longest regression length without explicit permutations. \
          evaluations = distinct in-domain inputs run through all of their metrics; non-trivial = labels: >=2 classes and prediction != truth; scores: 0 < AUC < 1; regression: prediction != truth; silhouette: every in-domain labelling; Pearson: some |r| < 1.",
@@ -361,6 +386,7 @@ fn main() {
     ctx.assume("log-loss reference clips to [f32::EPSILON, 1 - f32::EPSILON] as the implementation documents by its code (the rustdoc gives no clip level); tolerance relative max(1e-5, n * 2^-24) + 1e-6 (the subject sums n f32 terms sequentially; the n-term exceeds 1e-5 only for the n >= 1025 inputs)");
     ctx.assume("regression tolerance: f64 relative 1e-9 (f32 1e-4) scaled by the operand magnitude (max error, squared max error, SSres/SStot); R2 / explained variance additionally 2*ratio*1e-10/SStot for the documented 1e-10 denominator guard; MSLE only for inputs > -1, MAPE only for receivers without a 0 entry, R2 / EV only for non-constant truth (filtered inputs counted)");
     ctx.assume("silhouette: euclidean, domain = >=2 clusters each with >=2 distinct points (others counted out_of_domain), tolerance 1e-9; Pearson: non-constant columns, >=2 rows, tolerance 1e-9 (f32 1e-4) on the dimensionless scores whatever the scale of the inputs; permuted re-runs of float scores may differ by twice the tolerance (reordered sums), discrete outputs must be identical");
+    ctx.assume("translation family: tolerance = the usual relative one plus the conditioning of the definition's own two-pass arithmetic (differences first): the differences p - t, t - mean, x - y are exact, only a mean carries an error delta <= n u |offset|, entering sums of squares as n delta^2; allowance 4 * ratio * n delta^2 / SStot (R2, explained variance) and 4 n (delta_i^2 / SS_i + delta_j^2 / SS_j) (Pearson); none for the error metrics and the silhouette");
     ctx.assume("the p-values of PearsonCorrelation (entropy-seeded permutation test) are not part of the property and not checked");
 
     // ------------------------------------------------------------------ enumerate groups
@@ -894,6 +920,88 @@ fn main() {
         }
         ctx.extra("hardening.container_and_shape_cases_enumerated", json!(cases.len()));
         chunked(&mut groups, cases, 300);
+    }
+
+    {
+        // (T) translation: shifted copies (offset + step * value), f64 offsets 1e3, 1e6, 1e9, f32 1e2, 1e4,
+        // steps 0.137 (non-dyadic: products and squares of the shifted values are inexact) and 1
+        let mut cases: Vec<Case> = Vec::new();
+        let sh = |c: Case, o: f64, s: f64| Case::Shifted { base: Box::new(c), offset: o, step: s };
+        let offsets_of = |float: &str| -> Vec<f64> { if float == "f32" { vec![1e2, 1e4] } else { vec![1e3, 1e6, 1e9] } };
+        let steps = [0.137, 1.0];
+        for float in ["f64", "f32"] {
+            // T-regression: every (pred, truth) of length 2, a third of length 3 (thorough: all), structured lengths
+            for n in 2..=3usize {
+                for (k, p) in en::sequences(n, ralpha.len()).into_iter().enumerate() {
+                    for t in en::sequences(n, ralpha.len()) {
+                        if t.iter().all(|&x| x == t[0]) {
+                            continue;
+                        }
+                        if n == 3 && (k + t[0] + 2 * t[1]) % ctx.pick(9, 2) != 0 {
+                            continue;
+                        }
+                        for &o in &offsets_of(float) {
+                            for &s in &steps {
+                                cases.push(sh(Case::Regr { float: float.into(), pred: p.iter().map(|&i| ralpha[i]).collect(), truth: t.iter().map(|&i| ralpha[i]).collect(), perms: "none".into(), forms: false }, o, s));
+                            }
+                        }
+                    }
+                }
+            }
+            for n in [5usize, 8, 17, 33, 64] {
+                let truth: Vec<f64> = (0..n).map(|i| (i % 5) as f64 * 0.5 + 1.0).collect();
+                let pred: Vec<f64> = (0..n).map(|i| truth[i] + if i % 2 == 0 { 0.25 } else { -0.25 } * (1 + (i * 3) % n) as f64).collect();
+                for &o in &offsets_of(float) {
+                    for &s in &steps {
+                        cases.push(sh(Case::Regr { float: float.into(), pred: pred.clone(), truth: truth.clone(), perms: "none".into(), forms: false }, o, s));
+                    }
+                }
+            }
+            // T-Pearson: every 3x3 matrix over {-1,0,2}; thorough: every 4x2
+            for q in en::sequences(9, 3) {
+                let cols: Vec<Vec<f64>> = (0..3).map(|c| q[c * 3..c * 3 + 3].iter().map(|&i| pa3[i]).collect()).collect();
+                for &o in &offsets_of(float) {
+                    for &s in &steps {
+                        cases.push(sh(Case::Pearson { float: float.into(), cols: cols.clone(), perms: "none".into() }, o, s));
+                    }
+                }
+            }
+            if ctx.thorough() {
+                for q in en::sequences(8, 3) {
+                    let cols: Vec<Vec<f64>> = (0..2).map(|c| q[c * 4..c * 4 + 4].iter().map(|&i| pa3[i]).collect()).collect();
+                    for &o in &offsets_of(float) {
+                        cases.push(sh(Case::Pearson { float: float.into(), cols: cols.clone(), perms: "none".into() }, o, 0.137));
+                    }
+                }
+            }
+            // T-silhouette: every 4- and 5-subset of the lattice x every 2-labelling (thorough: 6-subsets x
+            // 3-labellings), plus 6 points with 1, 4, 5, 7, 9 features
+            for ss in en::subsets_upto(9, 4, ctx.pick(5, 6)) {
+                let n = ss.len();
+                let k = if n >= 6 { 3 } else { 2 };
+                for l in en::sequences(n, k) {
+                    let points: Vec<Vec<f64>> = ss.iter().map(|&i| lat[i].iter().map(|&v| v as f64).collect()).collect();
+                    for &o in &offsets_of(float) {
+                        for &s in &steps {
+                            if s == 1.0 && n >= 5 {
+                                continue;
+                            }
+                            cases.push(sh(Case::SilhouetteF { float: float.into(), points: points.clone(), labels: l.iter().map(|&i| SIL_LABEL_VALUES[i]).collect(), perms: "none".into() }, o, s));
+                        }
+                    }
+                }
+            }
+            for d in [1usize, 4, 5, 7, 9] {
+                for l in en::sequences(6, 2) {
+                    let points: Vec<Vec<f64>> = (0..6).map(|i| (0..d).map(|j| ((i * (j + 2) + j * j) % 5) as f64 + if j == 0 { i as f64 } else { 0.0 }).collect()).collect();
+                    for &o in &offsets_of(float) {
+                        cases.push(sh(Case::SilhouetteF { float: float.into(), points: points.clone(), labels: l.iter().map(|&i| SIL_LABEL_VALUES[i]).collect(), perms: "none".into() }, o, 0.137));
+                    }
+                }
+            }
+        }
+        ctx.extra("hardening.shifted_cases_enumerated", json!(cases.len()));
+        chunked(&mut groups, cases, 500);
     }
 
     let enumerated: u64 = groups.iter().map(|g| g.size()).sum();
